@@ -10,6 +10,7 @@ import (
 	"verif/harness/internal/c05"
 	"verif/harness/internal/c06"
 	"verif/harness/internal/c08"
+	"verif/harness/internal/c11"
 	"verif/harness/internal/c14"
 	"verif/harness/internal/c15"
 )
@@ -32,6 +33,8 @@ func main() {
 		os.Exit(c02.Main(os.Args[2:]))
 	case "c06":
 		os.Exit(c06.Main(os.Args[2:]))
+	case "c11":
+		os.Exit(c11.Main(os.Args[2:]))
 	case "c05":
 		os.Exit(c05.Main(os.Args[2:]))
 	}
